@@ -676,7 +676,7 @@ func init() {
 		map[string]int{"authorize": 2, "callback": 1, "par": 1, "code": 2, "refresh": 5, "cc": 1, "query": 10, "tick": 9, "bc": 24, "poll": 30, "notify": 14}, 30, scenarioCibaDenialEnds, scenarioCibaLifetime, scenarioCibaNarrowedAtApproval)
 	histSuite("c17", "mon_C17", "interleavings of several users' and clients' interactive flows with multi-step policies (succeed, fail, abandoned), ticks across the session timeout, stale/foreign/unknown callback ids, flows started from pushed requests",
 		120, 4000, 36, map[string]bool{"par": true},
-		map[string]int{"authorize": 26, "callback": 30, "par": 10, "code": 8, "refresh": 2, "cc": 1, "query": 8, "tick": 9, "bc": 1, "poll": 1, "notify": 1}, 30, scenarioSessionDeadline, scenarioBlankCallback)
+		map[string]int{"authorize": 26, "callback": 30, "par": 10, "code": 8, "refresh": 2, "cc": 1, "query": 8, "tick": 9, "bc": 1, "poll": 1, "notify": 1}, 30, scenarioSessionDeadline, scenarioBlankCallback, scenarioPushedFlowInProgress)
 	histSuite("c04flow", "mon_C04xd", "scenario matrices: the jwt-bearer grant (every client kind incl. no client identification at all x client authentication required or not x credential right / wrong x assertion accepted / refused / absent x scopes inside / outside the registration, resources, then introspection, userinfo and refresh of every token issued); clients with aligned and NOT aligned grant_types / response_types (hybrid response types without implicit, implicit without its response types, code response type without authorization_code) x every response type x servers with both grants / code only / implicit only, direct and pushed, every code redeemed; then histories over all grant types (the same clients included) with requested scope sub/supersets, refresh chains, introspection and userinfo of every token",
 		80, 3000, 36, map[string]bool{"refresh": true, "implicit": true, "misaligned": true, "jwtbearer": true, "authd": true},
 		map[string]int{"authorize": 14, "callback": 6, "par": 3, "code": 16, "refresh": 18, "cc": 8, "jwtbearer": 9, "query": 20, "tick": 3, "bc": 4, "poll": 6, "notify": 2}, 30, scenarioGrantTypeMatrix, scenarioGrantedSubset, scenarioJwtBearerMatrix, scenarioAuthDetailsMatrix, scenarioCibaNarrowedAtApproval)
